@@ -38,7 +38,7 @@ impl Args {
     }
 }
 
-fn main() {
+fn main() -> std::process::ExitCode {
     let argv: Vec<String> = std::env::args().collect();
     if argv.len() < 2 {
         eprintln!("usage: gecs-vh <workload> [key=value ...]");
@@ -64,12 +64,27 @@ fn main() {
     let small = args.u("small", 0) == 1;
     let world = args.s("world", "main");
 
+    if args.workload == "noop" {
+        println!("{{\"workload\":\"noop\",\"argv\":[],\"steps\":0,\"counters\":{{}},\"distinct\":{{}},\"samples\":[],\"violation\":null}}");
+        return std::process::ExitCode::SUCCESS;
+    }
     let rep = if let Some(mut prof) = history::profile(&args.workload) {
         if let Some(v) = args.kv.get("full_every") {
             prof.full_every = v.parse().unwrap();
         }
         if let Some(v) = args.kv.get("max_pop") {
             prof.max_pop = v.parse().unwrap();
+        }
+        for (k, f) in [("sample", 0usize), ("api_subset", 1), ("iter_every", 2), ("inv_all", 3)] {
+            if let Some(v) = args.kv.get(k) {
+                let v: usize = v.parse().unwrap();
+                match f {
+                    0 => prof.sample = v,
+                    1 => prof.api_subset = v,
+                    2 => prof.iter_every = v,
+                    _ => prof.inv_all = v == 1,
+                }
+            }
         }
         if args.u("noalloc", 0) == 1 {
             prof.track_alloc = false;
@@ -89,5 +104,7 @@ fn main() {
     };
     let failed = rep.failed();
     println!("{}", rep.to_json(&args.workload, &argv[1..].to_vec()));
-    std::process::exit(if failed { 3 } else { 0 });
+    // return normally (no process::exit) so that Miri's and LSan's leak checks run
+    drop(rep);
+    std::process::ExitCode::from(if failed { 3 } else { 0 })
 }
